@@ -497,7 +497,9 @@ def H6(vc):
     no_throttling = throttling_arg == 2
     throttling_kw = {} if throttling_arg == 0 else {'no_throttling': no_throttling}
     pressure = StubEvent('stream_pressure')
-    error_delays = Opaque('error_delays')
+    # settings.queueing.error_delays: any collection, the EMPTY one included ("every error-delay configuration (empty, ...)":
+    # errors are contained by the throttler also when there is nothing to sleep for)
+    error_delays = Opaque('error_delays', truth=vc.bool('error_delays non-empty'))
     settings = Opaque('settings', queueing=Opaque('queueing', error_delays=error_delays))
 
     class Throttled:
